@@ -79,6 +79,9 @@ pub fn nets() -> Vec<Net> {
                         let mut n = base.clone();
                         n.loopacc = acc;
                         n.loopbacks = vec![(b1, a1, 2, false), (b2, a2, 1, true)];
+                        out.push(n.clone());
+                        // the same two loops registered in the opposite order
+                        n.loopbacks.reverse();
                         out.push(n);
                     }
                 }
